@@ -59,12 +59,21 @@ func (o *Obligation) Script(getValues []*Term) string {
 				}
 			}
 		}
+		if o.Expect == "sat" && h.HasQuant() {
+			// reachability / vacuity canaries are decided over the quantifier-free hypotheses only
+			// (a quantified hypothesis makes "sat" undecidable in practice); stated in the evidence
+			skip = true
+		}
 		if !skip {
 			hyps = append(hyps, h)
 		}
 	}
 	hyps = append(hyps, o.PC)
-	return u.C.Script(hyps, u.C.Skolemize(o.Goal), getValues)
+	goal := u.C.Skolemize(o.Goal)
+	if o.Expect != "sat" {
+		hyps = append(hyps, u.C.instances(hyps, goal)...)
+	}
+	return u.C.Script(hyps, goal, getValues)
 }
 
 func firstLine(s string) string {
@@ -149,7 +158,11 @@ type Result struct {
 }
 
 // Discharge runs all obligations with a worker pool.
+var dischargeSeq int
+
 func Discharge(obls []*Obligation, dir string, timeoutS, workers int) []Result {
+	dischargeSeq++
+	pfx := fmt.Sprintf("f%03d", dischargeSeq)
 	res := make([]Result, len(obls))
 	var wg sync.WaitGroup
 	sem := make(chan struct{}, workers)
@@ -174,9 +187,9 @@ func Discharge(obls []*Obligation, dir string, timeoutS, workers int) []Result {
 			defer wg.Done()
 			defer func() { <-sem }()
 			// most obligations are easy: one solver with a short budget first, the full race only if undecided
-			v := RunQuery(script, dir, fmt.Sprintf("q%04d", i), 2, Solvers[:1])
+			v := RunQuery(script, dir, fmt.Sprintf("%sq%04d", pfx, i), 2, Solvers[:1])
 			if v.Status != "sat" && v.Status != "unsat" {
-				v = RunQuery(script, dir, fmt.Sprintf("q%04d", i), timeoutS, Solvers)
+				v = RunQuery(script, dir, fmt.Sprintf("%sq%04d", pfx, i), timeoutS, Solvers)
 			}
 			res[i].V = v
 			res[i].OK = v.Status == o.Expect
@@ -187,4 +200,116 @@ func Discharge(obls []*Obligation, dir string, timeoutS, workers int) []Result {
 	}
 	wg.Wait()
 	return res
+}
+
+// instances adds ground instances of single-variable universally quantified hypotheses at the terms the
+// goal talks about: its skolem constants (and their neighbours) and the element indices it reads.
+// Adding instances of hypotheses is sound; it only saves the solver from finding them by E-matching.
+func (c *Ctx) instances(hyps []*Term, goal *Term) []*Term {
+	type q struct {
+		guard *Term
+		v     *Term
+		body  *Term
+	}
+	var qs []q
+	var collect func(g, t *Term)
+	collect = func(g, t *Term) {
+		switch t.Op {
+		case OpForall:
+			if len(t.Bound) == 1 {
+				qs = append(qs, q{g, t.Bound[0], t.Args[0]})
+			}
+		case OpImplies:
+			ng := t.Args[0]
+			if g != nil {
+				ng = c.And(g, ng)
+			}
+			collect(ng, t.Args[1])
+		case OpAnd:
+			for _, a := range t.Args {
+				collect(g, a)
+			}
+		case OpOr:
+			for i, a := range t.Args {
+				if !a.quant {
+					continue
+				}
+				ng := g
+				for j, b := range t.Args {
+					if j != i {
+						if ng == nil {
+							ng = c.Not(b)
+						} else {
+							ng = c.And(ng, c.Not(b))
+						}
+					}
+				}
+				collect(ng, a)
+			}
+		}
+	}
+	for _, h := range hyps {
+		if h.quant {
+			collect(nil, h)
+		}
+	}
+	if len(qs) == 0 {
+		return nil
+	}
+	// candidate terms
+	var cands []*Term
+	seenC := map[int]bool{}
+	add := func(t *Term) {
+		if t.S != BV(64) || seenC[t.id] || len(t.free) > 0 || len(cands) >= 10 {
+			return
+		}
+		seenC[t.id] = true
+		cands = append(cands, t)
+	}
+	seen := map[int]bool{}
+	var walk func(t *Term)
+	walk = func(t *Term) {
+		if seen[t.id] {
+			return
+		}
+		seen[t.id] = true
+		if t.Op == OpVar && strings.HasPrefix(t.Name, "sk_") || t.Op == OpVar && strings.HasPrefix(t.Name, "|sk_") {
+			add(t)
+			add(c.Sub(t, c.BVu(1, 64)))
+			add(c.Add(t, c.BVu(1, 64)))
+		}
+		if t.Op == OpIdx {
+			ix := t.Args[1]
+			if ix.Op == OpAdd && len(ix.Args) == 2 && !ix.Args[1].IsConst() {
+				add(ix.Args[1])
+			} else {
+				add(ix)
+			}
+		}
+		for _, a := range t.Args {
+			walk(a)
+		}
+	}
+	walk(goal)
+	var out []*Term
+	n := 0
+	for _, qq := range qs {
+		for _, cd := range cands {
+			if qq.v.S != cd.S {
+				continue
+			}
+			inst := c.Subst(qq.body, map[int]*Term{qq.v.id: cd})
+			if qq.guard != nil {
+				inst = c.Implies(qq.guard, inst)
+			}
+			if !inst.IsTrue() && !inst.quant {
+				out = append(out, inst)
+				n++
+			}
+			if n > 60 {
+				return out
+			}
+		}
+	}
+	return out
 }
